@@ -3,8 +3,10 @@ CONSTANTS
   MaxLen = 5
   Ls = {0, 6, 9}
   SPs = {0, 4}
+  MaxExotic = 1
   D12_EmptyLogPanics = TRUE
   D16_TimeoutDropsPartials = TRUE
   D17_SkipSurvivesTimeout = TRUE
+  D20_BackslashNIsEnd = TRUE
 INVARIANTS TypeOK CutInRange BufBounded TimeoutOnlyWhileCollapsed StatementOK ResidualOK DevSwitched Export
 CHECK_DEADLOCK FALSE
